@@ -73,9 +73,18 @@ def r31(ctx, repo, upd):
                 if isinstance(c.func.value, ast.Name)]
         if not apps:
             continue
-        # does the loop compare current and previous values?
+        # does the loop compare current and previous values?  (locals bound
+        # inside the loop from the old / current settings count as such)
+        l_old, l_cur = set(old_names), set(cur_names)
+        for n in walk(lp):
+            if isinstance(n, ast.Assign) and len(n.targets) == 1 \
+                    and isinstance(n.targets[0], ast.Name):
+                if names_in(n.value) & old_names:
+                    l_old.add(n.targets[0].id)
+                if names_in(n.value) & cur_names:
+                    l_cur.add(n.targets[0].id)
         cmp_both = any(isinstance(c, ast.Compare)
-                       and names_in(c) & old_names and names_in(c) & cur_names
+                       and names_in(c) & l_old and names_in(c) & l_cur
                        for c in walk(lp))
         if cmp_both:
             appenders.append(lp)
@@ -513,11 +522,34 @@ def r35(ctx, repo, upd):
     en = [n for n in walk(upd) if isinstance(n, ast.If)
           and "enable filters" in txt(n.test)][0]
     calls = [c for c in find_calls(upd, attr="downsample_rand")]
+    site = None
+    body_fn = upd
+    limit_arg = None
+    if not calls:
+        # the limit code may live in a helper method of the same class
+        for hc in [c for c in walk(upd) if isinstance(c, ast.Call)]:
+            nm = last_attr(hc)
+            if nm and isinstance(hc.func, ast.Attribute) and txt(
+                    hc.func.value) in ("self", "Filter"):
+                helper = repo.func(FILT, f"Filter.{nm}", missing_ok=True)
+                if helper is not None and find_calls(
+                        helper, attr="downsample_rand"):
+                    site = hc
+                    body_fn = helper
+                    calls = find_calls(helper, attr="downsample_rand")
+                    # which helper parameter carries the limit?
+                    params = [a.arg for a in helper.args.args
+                              if a.arg != "self"]
+                    for prm, a in zip(params, hc.args):
+                        if "limit" in txt(a):
+                            limit_arg = prm
+                    break
     if not calls:
         raise AnalysisError("Filter.update: event limit lost")
     c = calls[0]
-    inside = any(x is c for x in walk(ast.Module(body=en.body,
-                                                 type_ignores=[])))
+    anchor = site if site is not None else c
+    inside = any(x is anchor for x in walk(ast.Module(body=en.body,
+                                                      type_ignores=[])))
     ctx.ob("R3.5", inside, "the event limit is applied on the enabled "
            "branch only" if inside else "event limit applied although "
            "filters are disabled", node=c, label="limit in enabled branch")
@@ -532,7 +564,7 @@ def r35(ctx, repo, upd):
     ret_idx = kwarg(c, "ret_idx")
     ok = ret_idx is not None and txt(ret_idx) == "True"
     sub = c.args[0] if c.args else kwarg(c, "a")
-    subdef = _assigned_from(upd, lambda v: isinstance(v, ast.Subscript)
+    subdef = _assigned_from(body_fn, lambda v: isinstance(v, ast.Subscript)
                             and txt(v.value) == txt(v.slice))
     ok2 = isinstance(sub, ast.Name) and sub.id in subdef
     ctx.ob("R3.5", ok and ok2,
@@ -541,16 +573,18 @@ def r35(ctx, repo, upd):
            "the limit does not operate on all[all] with ret_idx=True",
            node=c, label="limit on selected events")
     samples = kwarg(c, "samples", 1)
-    ok = samples is not None and "limit" in txt(samples)
+    ok = samples is not None and ("limit" in txt(samples)
+                                  or txt(samples) == limit_arg)
     ctx.ob("R3.5", ok, "requested size is the configured limit" if ok else
            "requested size is not the configured limit", node=c,
            label="limit size", nontrivial=False)
     # write-back
-    wb = [n for n in walk(en) if isinstance(n, ast.Assign) and isinstance(
+    scope = en if body_fn is upd else body_fn
+    wb = [n for n in walk(scope) if isinstance(n, ast.Assign) and isinstance(
         n.targets[0], ast.Subscript) and txt(n.targets[0].value) == txt(
         n.targets[0].slice) and isinstance(n.value, ast.Name)
         and n.value.id in subdef]
-    neg = [n for n in walk(en) if isinstance(n, ast.Assign) and isinstance(
+    neg = [n for n in walk(scope) if isinstance(n, ast.Assign) and isinstance(
         n.targets[0], ast.Subscript) and isinstance(
         n.targets[0].slice, ast.UnaryOp) and isinstance(
         n.targets[0].slice.op, ast.Invert) and isinstance(
@@ -623,11 +657,17 @@ def r36(ctx, repo):
         raise AnalysisError("CFG_ANALYSIS['filtering'] could not be folded")
     dv = repo.func(CONF, "Configuration._init_default_filter_values")
     assigned = {}
+    sec_alias = {n.targets[0].id for n in walk(dv)
+                 if isinstance(n, ast.Assign) and isinstance(
+                     n.targets[0], ast.Name) and isinstance(
+                     n.value, ast.Subscript) and const_str(
+                     n.value.slice) == "filtering"}
     for n in walk(dv):
         if isinstance(n, ast.Assign) and isinstance(
                 n.targets[0], ast.Subscript) and const_str(
-                n.targets[0].slice) and "filtering" in txt(
-                n.targets[0].value):
+                n.targets[0].slice) and ("filtering" in txt(
+                    n.targets[0].value) or txt(
+                    n.targets[0].value) in sec_alias):
             assigned[const_str(n.targets[0].slice)] = n.value
     for k in keys:
         ok = k in assigned
@@ -779,6 +819,38 @@ MUTANTS = [
 ]
 
 TWINS = [
+    ("diff loop with intermediate variables (refactor C03/2)", FILT,
+     ("            if cfg_cur.get(skey, None) != cfg_old.get(skey, None):\n",
+      "            val_cur = cfg_cur.get(skey, None)\n"
+      "            val_old = cfg_old.get(skey, None)\n"
+      "            if val_cur != val_old:\n")),
+    ("event limit extracted into a helper (refactor C03/3)", FILT,
+     [("                sub = arr_all[arr_all]\n"
+       "                _, idx = downsampling.downsample_rand(sub,\n"
+       "                                                      samples=limit,\n"
+       "                                                      ret_idx=True)\n"
+       "                sub[~idx] = False\n"
+       "                arr_all[arr_all] = sub\n",
+       "                self._limit_events(arr_all, limit)\n"),
+      ("    def reset(self):\n",
+       "    @staticmethod\n"
+       "    def _limit_events(arr_all, limit):\n"
+       "        sub = arr_all[arr_all]\n"
+       "        _, idx = downsampling.downsample_rand(sub,\n"
+       "                                              samples=limit,\n"
+       "                                              ret_idx=True)\n"
+       "        sub[~idx] = False\n"
+       "        arr_all[arr_all] = sub\n\n"
+       "    def reset(self):\n")]),
+    ("defaults through a local alias of the section (refactor C03/4)", CONF,
+     lambda src: src.replace(
+         "        # Do not filter out invalid event values\n",
+         "        filt = self[\"filtering\"]\n"
+         "        # Do not filter out invalid event values\n", 1).replace(
+         'self["filtering"]["remove invalid events"] = False',
+         'filt["remove invalid events"] = False').replace(
+         'self["filtering"]["enable filters"] = True',
+         'filt["enable filters"] = True')),
     ("bounds written the other way round", FILT,
      [("feat_filt[idx] &= ivalstart <= data[idx]",
        "feat_filt[idx] &= data[idx] >= ivalstart"),
